@@ -78,7 +78,7 @@ const char vs_enc_names[8];
 static inline bool vs_nondet_bool(void) { bool b; return b; }
 struct vs_promise { int state; };       /* 1 rejected here, 2 whatever the transport's promise becomes, 3 resolved */
 struct vs_rawbuf { size_t size; };
-size_t g_aw_calls, g_aw_len, g_buffer_calls, g_buffer_size; bool g_rejected_made;
+size_t g_aw_calls, g_aw_len, g_buffer_calls, g_buffer_size, g_pow_calls; bool g_rejected_made;
 static inline struct vs_promise vs_promise_rejected(void) { struct vs_promise p; p.state = 1; g_rejected_made = 1; return p; }
 static inline struct vs_promise vs_promise_resolved(void) { struct vs_promise p; p.state = 3; return p; }
 static inline struct vs_promise vs_promise_then(const struct vs_promise *p) { return *p; }
@@ -187,8 +187,11 @@ RECORDS = ['Pistache::Http::Header::EncodingHeader', 'Pistache::Http::Header::Tr
 EXCEPTIONS = {'std::runtime_error': 'VS_EXC_RUNTIME_ERROR', 'Pistache::Error': 'VS_EXC_RUNTIME_ERROR'}
 ENUMS = ['Pistache::Http::Version', 'Pistache::Http::Code', 'Pistache::Http::Header::Encoding']
 DEFAULT_RULE = True
-ASSUME_PISTACHE = ['Pistache::Http::Timeout', 'Pistache::Tcp::Peer', 'Pistache::Http::ResponseWriter::peer', 'Pistache::Error']
+ASSUME_PISTACHE = ['Pistache::Http::Timeout', 'Pistache::Tcp::Peer', 'Pistache::Http::ResponseWriter::peer', 'Pistache::Error',
+                   # sendImpl's Content-Type handling: the header collection and the media type are assumed externals (C16 / C18)
+                   'Pistache::Http::Mime::MediaType::', 'Pistache::Http::Header::Collection::', 'Pistache::Http::Header::ContentType', 'ctor:Pistache::Http::Header::ContentType', 'Pistache::Http::ResponseWriter::headers']
 ASSUME_NOTHROW = ['Pistache::Http::Timeout', 'Pistache::Tcp::Peer']
+ASSUME_PURE = ['Pistache::Http::Header::ContentType::setMime', 'Pistache::Http::Mime::MediaType::']
 OPAQUE_UNKNOWN = True
 OPAQUE_ANY = True
 FUNCTIONS = [
@@ -311,6 +314,19 @@ FUNCTIONS += [
         # headers, or of the final blank line, is the exception: the buffer stays refused, so ends() raises)
         ensures (vs_exc == 0 && g_buf_full) ==> (g_em_n <= 6 + 3 * g_ncookies + 4 * g_nheaders || g_em_n == vs_spec_stream_head_total())"""},
 ]
+FUNCTIONS += [
+    {'q': 'Pistache::Http::ResponseWriter::sendImpl', 'dflt_ref': 'malloc',
+     'ghost': [('Pistache_Http_ResponseWriter_putOnWire', 'before', '__CPROVER_assert(this->response_.vs_base_Message.code_ == code, "C05: the status line carries the chosen code: it is stored before the response is put on the wire"); __CPROVER_assert($1 == data && $2 == size, "C05: the body handed to the writer is the body given"); g_pow_calls++;')],
+     'contract': """
+        requires FRESH(this, sizeof(*this)) && FRESH(mime, sizeof(*mime)) && vs_exc == 0 && g_pow_calls == 0
+        # what putOnWire needs (its contract replaces the call)
+        requires g_em_n == 0 && !g_buf_full && g_aw_calls == 0 && g_buffer_calls == 0 && !g_rejected_made
+        requires g_nheaders <= COUNT_MAX && g_ncookies <= COUNT_MAX && size <= ((size_t)1 << 40) && this->sent_bytes_ <= ((size_t)1 << 60)
+        assigns *this, vs_exc, g_pow_calls, g_em_n, g_s_kind, g_s_num, g_s_ptr, g_s_lo, g_s_hi, g_s_x, g_lit_x, g_s_len, g_buf_full, vs_idx_slot_v, g_aw_calls, g_aw_len, g_buffer_calls, g_buffer_size, g_rejected_made
+        # exactly one response is written for one send (asserted at the call: with the chosen code and the body given)
+        ensures vs_exc == 0 ==> (g_pow_calls == 1 && this->response_.vs_base_Message.code_ == code)
+        ensures g_pow_calls <= 1"""},
+]
 PROOFS = [
     {'name': 'writeStatusLine', 'enforce': 'Pistache_Http_writeStatusLine', 'props': ['C05']},
     {'name': 'writeHeaders', 'enforce': 'Pistache_Http_writeHeaders', 'loops': 'contracts', 'props': ['C05']},
@@ -318,5 +334,6 @@ PROOFS = [
     {'name': 'writeHeader_ContentLength', 'enforce': 'writeHeader_ContentLength', 'props': ['C05']},
     {'name': 'writeHeader_TransferEncoding', 'enforce': 'writeHeader_TransferEncoding', 'props': ['C05']},
     {'name': 'ResponseStream_ctor', 'enforce': 'ResponseStream_ctor', 'replace': W + ['writeHeader_TransferEncoding'], 'defs': ['-DVS_LIGHT'], 'props': ['C05']},
+    {'name': 'sendImpl', 'enforce': 'Pistache_Http_ResponseWriter_sendImpl', 'replace': ['Pistache_Http_ResponseWriter_putOnWire'], 'defs': ['-DVS_LIGHT'], 'props': ['C05']},
     {'name': 'putOnWire', 'enforce': 'Pistache_Http_ResponseWriter_putOnWire', 'replace': W, 'defs': ['-DVS_LIGHT'], 'props': ['C05'], 'cost': 30},
 ]
